@@ -112,7 +112,8 @@ func c13Body(t *testing.T, s *sim.Scn, o *sim.Outcome) {
 	w := sim.NewWorld(t, "c13", 1)
 	defer w.Close()
 	w.Genesis.GenesisDAStartTime = time.Now().Add(future)
-	agg := w.AddNode(sim.NodeCfg{Name: "seq", Aggregator: true, BlockTime: bt, DABlockTime: dat, LazyMode: s.Cfg["lazy"] == 1, LazyInterval: 5 * bt, MaxPending: uint64(s.Cfg["maxpending"]), MempoolTTL: 1})
+	agg := w.AddNode(sim.NodeCfg{Name: "seq", Aggregator: true, BlockTime: bt, DABlockTime: dat, LazyMode: s.Cfg["lazy"] == 1, LazyInterval: 5 * bt, MaxPending: uint64(s.Cfg["maxpending"]), MempoolTTL: 1,
+		GasPrice: float64(s.Cfg["gas"]), GasMultiplier: 1.5 * float64(s.Cfg["gas"])})
 	if err := agg.StartNode(); err != nil {
 		o.Fail("C13/cannot-start", "", -1, err.Error(), "starts")
 		return
@@ -418,7 +419,7 @@ func c13Gen(r *rand.Rand, tier string) *sim.Scn {
 	s := &sim.Scn{Cfg: map[string]int64{
 		"bt": []int64{100, 250, 1000, 2000}[r.IntN(4)], "dat": []int64{1000, 3000, 6000}[r.IntN(3)], "run": run, "stop": r.Int64N(run + 1),
 		"lazy": r.Int64N(2), "maxpending": []int64{0, 0, 2, 5}[r.IntN(4)], "full": int64(r.IntN(4) / 1 % 2), "dalat": []int64{0, 5, 50, 300}[r.IntN(4)], "execlat": []int64{0, 0, 20, 400}[r.IntN(4)],
-		"jitter": []int64{0, 0, 0, 0, 200, 1000}[r.IntN(6)], "jsalt": r.Int64N(1 << 30),
+		"jitter": []int64{0, 0, 0, 0, 200, 1000}[r.IntN(6)], "jsalt": r.Int64N(1 << 30), "gas": r.Int64N(2),
 	}}
 	if r.IntN(3) == 0 {
 		s.Cfg["future"] = int64(1000 + r.IntN(120000))
